@@ -256,7 +256,7 @@ pub fn dump(mir: &Mir) -> String {
         let args: Vec<String> = f.args.iter().map(|a| ws(&a.1).to_string()).collect();
         let empty = RegMap::new();
         let pm = f.upperfn_i.and_then(|u| maps.get(u)).map(|p| &p.0).unwrap_or(&empty);
-        let ups: Vec<String> = f.upindexes.iter().map(|u| opd(pm, u)).collect();
+        let ups: Vec<String> = f.upindexes.iter().map(|u| opd(pm, &u.0)).collect();
         let upper = f.upperfn_i.map(|u| u.to_string()).unwrap_or("-".into());
         let nret = f.return_type.get().map(|t| ws(t).to_string()).unwrap_or("-".into());
         fns.push_str(&format!(
